@@ -4,6 +4,7 @@ import (
 	"bytes"
 	"fmt"
 	"math"
+	"math/rand/v2"
 	"os"
 	"path/filepath"
 
@@ -342,6 +343,11 @@ func (lr *libRun) c06Write(op LibOp, pts []model.Pt, now int64, callErr error) {
 	if st == nil || st.gdb == nil {
 		return
 	}
+	for _, p := range pts {
+		if p.T > now {
+			return // future timestamps are not mirrored onto the reference-written file
+		}
+	}
 	switch {
 	case op.Op == "upd" && op.ID == -1:
 		st.gdb.Update(pts[0].V, int(pts[0].T))
@@ -376,7 +382,7 @@ func (lr *libRun) c06AtSync(b []byte, f *model.File) {
 		}
 	}
 	e.Probe("synced-file-parsed-by-independent-parser")
-	lr.c06Cross(lr.path, "whispertool-written")
+	c06Cross(lr.e, lr.archs, lr.wr, lr.path, "whispertool-written", lr.c.Layout.Method)
 }
 
 func (lr *libRun) c06Reads() {
@@ -390,12 +396,15 @@ func (lr *libRun) c06Reads() {
 			lr.e.Note("go-whisper-file-not-parsed:" + trunc(err.Error(), 40))
 		}
 	}
-	lr.c06Cross(st.pathB, "reference-written")
+	c06Cross(lr.e, lr.archs, lr.wr, st.pathB, "reference-written", 0)
 }
 
 // c06Cross reads path with go-whisper and with whispertool and compares.
-func (lr *libRun) c06Cross(path, who string) {
-	e := lr.e
+func c06Cross(e *Env, archs []model.Arch, wr *rand.Rand, path, who string, wantMethod int) {
+	lr := struct {
+		archs []model.Arch
+		wr    *rand.Rand
+	}{archs, wr}
 	now := Now()
 	gw.Now = timeNow
 	wt.Now = timeNow
@@ -432,6 +441,10 @@ func (lr *libRun) c06Cross(path, who string) {
 	if int(g.AggregationMethod()) != int(w.AggregationMethod()) || g.XFilesFactor() != w.XFilesFactor() || g.MaxRetention() != int(w.MaxRetention()) {
 		e.Violate("C06.metadata", "%s file: go-whisper (%v,%v,%v) vs whispertool (%v,%v,%v)", who,
 			g.AggregationMethod(), g.XFilesFactor(), g.MaxRetention(), w.AggregationMethod(), w.XFilesFactor(), w.MaxRetention())
+		return
+	}
+	if wantMethod != 0 && int(g.AggregationMethod()) != wantMethod {
+		e.Violate("C06.metadata", "%s file created with aggregation method %s (%d in the Whisper format): the reference reader sees method %d", who, methodName(wantMethod), wantMethod, int(g.AggregationMethod()))
 		return
 	}
 	parsed, perr := model.ParseFile(readFile(path))
@@ -504,6 +517,11 @@ func (lr *libRun) c06Cross(path, who string) {
 					e.Note("c06-go-whisper-only-anomaly")
 					continue
 				}
+			} else if who != "whispertool-written" {
+				// the reference-written bytes do not satisfy the format rules of
+				// the independent parser: nothing can arbitrate this disagreement
+				e.Note("c06-reference-file-not-arbitrable")
+				continue
 			}
 			e.Violate("C06.interop-read", "%s file, window (now-%d, now-%d]: go-whisper reads from=%d until=%d step=%d n=%d, whispertool reads from=%d until=%d step=%d n=%d (or values differ)",
 				who, now-from, now-until, gts.FromTime(), gts.UntilTime(), gts.Step(), len(gts.Values()),
@@ -511,4 +529,53 @@ func (lr *libRun) c06Cross(path, who string) {
 			return
 		}
 	}
+}
+
+// checkC06Cli: files produced by the CLI (generate, copy and sum-copy into an
+// absent destination) are classic Whisper files as well.
+func checkC06Cli(e *Env, r *cliRunner, c *CliCase) {
+	res := r.run1(c.Cmd, "c06")
+	if foreignPanic(e, res) {
+		return
+	}
+	if res.err != nil {
+		e.Skip("cli-command-failed")
+		return
+	}
+	var dp string
+	switch c.Cmd.Kind {
+	case "generate":
+		dp = filepath.Join(e.Dir, "dst", c.Cmd.Dest)
+	case "copy":
+		d := c.Cmd.Dest
+		if d == "" {
+			d = c.Cmd.Src
+		}
+		dp = filepath.Join(e.Dir, "dst", d)
+	case "sum-copy":
+		items, _ := sumWorld(e, c)
+		if len(items) == 0 {
+			return
+		}
+		dp = filepath.Join(e.Dir, "dst", items[0], c.Cmd.Dest)
+	default:
+		return
+	}
+	b := readFile(dp)
+	if b == nil {
+		e.Skip("no-destination")
+		return
+	}
+	f, err := model.ParseFile(b)
+	if err != nil {
+		e.Violate("C06.format", "file written by %s is not a classic Whisper file: %v", c.Cmd.Kind, err)
+		return
+	}
+	l := c.Cmd.Create
+	if int(f.Method) != l.Method || f.XffBits != math.Float32bits(float32(l.Xff)) || int(f.Count) != len(l.Archs) {
+		e.Violate("C06.format", "file written by %s holds method %d xff bits %#x count %d, requested %d %#x %d", c.Cmd.Kind, f.Method, f.XffBits, f.Count, l.Method, math.Float32bits(float32(l.Xff)), len(l.Archs))
+		return
+	}
+	e.Probe("cli-written-file-parsed/" + c.Cmd.Kind)
+	c06Cross(e, toModelArchs(l), newRng(c.SchedSeed|1), dp, "whispertool-written", l.Method)
 }
